@@ -79,6 +79,9 @@ def configs(tier):
                 out.append(c)
                 if entry in ('fast_SIR', 'fast_nonMarkov_SIR') and g in ('K2', 'P3') and not R0 and len(I0) == 1:
                     out.append(dict(c, tmax='sym', tags=c['tags'] + ['tmax:sym']))
+                if entry == 'fast_nonMarkov_SIR' and g in ('K2', 'P3') and not R0:
+                    # the joint user function (delays to all susceptible neighbours + duration in one call); its delays may exceed the duration
+                    out.append(dict(c, joint=True, tags=c['tags'] + ['joint']))
                 if entry in ('Gillespie_SIR', 'fast_SIR', 'Gillespie_SIS', 'fast_SIS') and g == 'P3' and not R0 and len(I0) == 1:
                     c2 = dict(c, weights='both', wstub='abstract', tags=c['tags'] + ['w:both'])
                     out.append(c2)
